@@ -187,6 +187,50 @@ def check_case(c, case):
         c.sample(dict(case=case, cost_at_1_3=base))
 
 
+def reuse(c, item):
+    """one InferenceSetup object, re-used for a second experiment through its setters (data with another time column, other
+    initial / parameter conditions), prepared again: the cost is the posterior of the data now in force"""
+    caseA, caseB, chain = item
+    dfsA, dfsB = data_frames(caseA), data_frames(caseB, theta_true=1.1)
+    c.count('states')
+    key = 'C15/reuse/'
+    try:
+        ins = setup(caseA, dfsA)
+        ins.cost_function([0.5])
+        seq = [(caseB, dfsB)] + ([(caseA, dfsA), (caseB, dfsB)] if chain else [])
+        for k, (cs, dfs) in enumerate(seq):
+            fresh = setup(cs, dfs)          # what a new object is given: the same argument shapes through the setters
+            ins.set_exp_data(fresh.exp_data)
+            ins.set_initial_conditions(setup_args(cs)['initial_conditions'])
+            ins.set_parameter_conditions(setup_args(cs)['parameter_conditions'])
+            ins.prepare_inference()
+            ins.setup_cost_function()
+            for th in (1.3, 0.5, -0.7):
+                got = float(ins.cost_function([th]))
+                exp = ref_cost(cs, dfs, th)
+                c.count('evaluations'); c.count('transitions'); c.count('traces')
+                if (math.isinf(exp) and got != exp) or (math.isfinite(exp) and (not math.isfinite(got) or abs(got - exp) > 1e-5 * (1 + abs(exp)))):
+                    c.violation(key + 'value', 're-used setup, experiment %d of the sequence: cost(%r) = %r, stated posterior of the data in force %r' % (
+                        k + 2, th, got, exp), dict(reuse=[caseA, caseB, chain]))
+                    return
+    except Exception as e:
+        c.violation(key + 'exception', 're-using an InferenceSetup through its setters raised %r' % e, dict(reuse=[caseA, caseB, chain]))
+        return
+    c.nontrivial(('reuse', repr(sorted((k, str(v)) for k, v in caseA.items())), repr(sorted((k, str(v)) for k, v in caseB.items())), chain))
+
+
+def setup_args(case):
+    ics = list(case['ics'])
+    pcs = list(case['pcs'])
+    if case['icv'] == 'shared':
+        ics = ics[0]
+    pc_arg = None if all(p is None for p in pcs) else [p if p is not None else {} for p in pcs]
+    if case['N'] == 1 and not case['wrap_single']:
+        ics = ics[0] if isinstance(ics, list) else ics
+        pc_arg = pc_arg[0] if pc_arg else None
+    return dict(initial_conditions=ics, parameter_conditions=pc_arg)
+
+
 def stochastic_alignment(c, item):
     """stochastic cost on a model whose trajectory is stream-independent (all rates zero): data equal to the constant
     state in the right column gives cost log-prior - 0; any misalignment of columns or trajectories changes it."""
@@ -254,21 +298,47 @@ def cases(tier):
 def run(ctx):
     cs = cases(ctx.tier)
     pmap(check_case, cs, ctx, nshards=128)
+    # pairs of experiments for one re-used object: same model / measurements / norm / number of trajectories, the second with other
+    # time grids (same number of rows), initial and parameter conditions
+    ru = []
+    for name in MODELS:
+        sp_ = MODELS[name]['species']
+        for N in (1, 2, 3):
+            for meas in ([sp_[0]], list(sp_)):
+                for (icA, pcA, gA), (icB, pcB, gB) in ((('shared', 'none', 'shared'), ('per-trajectory', 'equal-keys', 'per-trajectory')),
+                                                        (('per-trajectory', 'differing-keys', 'per-trajectory'), ('shared', 'none', 'shared')),
+                                                        (('shared', 'equal-keys', 'shared'), ('shared', 'equal-keys', 'shared'))):
+                    a_ = make_case(name, N, meas, 2, icA, pcA, gA if N > 1 else 'shared', True)
+                    b_ = make_case(name, N, meas, 2, icB, pcB, gB if N > 1 else 'shared', True)
+                    b_['grids'] = [(np.array(g_) * 1.5 + (0.0 if i_ % 2 == 0 else 0.0)).tolist() for i_, g_ in enumerate(b_['grids'])]   # another time column, same length
+                    # every initial and parameter condition is spelled out completely: evaluating a cost leaves the Model holding the
+                    # last trajectory's values (library behaviour, not part of this property), so nothing may be left to the
+                    # 'model's own value' when an object is prepared a second time
+                    for cs_ in (a_, b_):
+                        cs_['icv'] = 'per-trajectory'
+                        cs_['ics'] = [dict({s_: DEFAULTS[s_] for s_ in sp_}, **ic_) for ic_ in cs_['ics']]
+                        others = {k_: v_ for k_, v_ in MODELS[name]['params'].items() if k_ != 'k1'}
+                        cs_['pcs'] = [dict(others, **(pc_ or {})) if others else None for pc_ in cs_['pcs']]
+                    for chain in ((False,) if ctx.quick and N == 3 else (False, True)):
+                        ru.append((a_, b_, chain))
+    pmap(reuse, ru, ctx, nshards=64)
     st = [(N, meas) for N in (1, 2, 3) for meas in (['A'], ['A', 'B'], ['B', 'C', 'A'])]
     pmap(stochastic_alignment, st, ctx, nshards=len(st))
-    ctx.bounds = dict(cases=len(cs), history_length=cs[0]['hist_len'], thetas=THETAS)
+    ctx.bounds = dict(reuse_pairs=len(ru), cases=len(cs), history_length=cs[0]['hist_len'], thetas=THETAS)
     ctx.rule = ('E2+E3: linear models {A->0; A->B->0; A->B->C->0} with closed-form (matrix exponential) solutions x 1..4 trajectories (single '
                 'data frame and one-element list) x every subset of measured species (and reordered lists) x norm orders 1..3 x shared / '
                 'per-trajectory initial conditions x no / equal-key / differing-key parameter conditions x shared / per-trajectory time grids; '
                 'data differ per species, trajectory and time so any misalignment changes the value. For each case: LL_data alignment, '
                 'cost(theta) against the closed form at 5 points (one repeated, one outside the prior support -> -inf), every sequence of '
                 'evaluations up to the history bound against a fresh InferenceSetup (1e-9), every permutation of measurement columns and of '
-                'trajectories; plus the stochastic cost on a stream-independent model. states = cases; non-trivial = more than one '
+                'trajectories; one InferenceSetup object re-used for a second (and back to the first, and the second again) experiment through set_exp_data / set_initial_conditions / set_parameter_conditions + prepare_inference + setup_cost_function, with another time column of the same length; plus the stochastic cost on a stream-independent model. states = cases; non-trivial = more than one '
                 'measured species or trajectory.')
     ctx.assumptions = ['reference trajectories by scipy.linalg.expm; deterministic cost compared at 1e-5 relative (odeint tolerance)']
 
 
 def replay(ctx, case):
+    if 'reuse' in case:
+        return reuse(ctx, tuple(case['reuse']))
     if 'case' in case:
         check_case(ctx, case['case'])
     else:
